@@ -402,6 +402,14 @@ O(id='asn_set_ops.n6', props=['C14', 'C15', 'C04'], kind='bounded', tier='experi
   cbmc=['--malloc-may-fail', '--malloc-fail-null', '--memory-leak-check'], bound='every sequence of at most 6 add/delete operations, every allocation may fail',
   min_props=40, timeout=600)
 
+# ---------------------------------------------------------------- OCTET STRING over OER
+OSO = dict(harness='harness/h_octet_string_oer.c', units=[SK + 'OCTET_STRING_oer.c', SK + 'oer_support.c'], fp_restrict=[(r'::cb$', ['vf_cb'])])
+O(id='OCTET_STRING_oer.roundtrip', props=['C01', 'C02', 'C07', 'C08'], kind='bounded', entry='h_OCTET_STRING_oer_roundtrip', functions=['OCTET_STRING_encode_oer', 'OCTET_STRING_decode_oer'],
+  unwind=14, cbmc=['--no-malloc-may-fail'], bound='strings of at most 8 octets, every subvariant (8/16/32-bit units), no or fixed SIZE 0..8; callback may fail', min_props=50, timeout=600, **OSO)
+O(id='OCTET_STRING_decode_oer.b12', props=['C04', 'C05', 'C14', 'C15'], kind='bounded', entry='h_OCTET_STRING_decode_oer', functions=['OCTET_STRING_decode_oer'],
+  unwind=14, cbmc=['--malloc-may-fail', '--malloc-fail-null', '--memory-leak-check'], bound='every input of at most 12 octets, every subvariant, SIZE -1..16, fresh or re-used structure; allocation may fail',
+  min_props=50, timeout=600, **OSO)
+
 UNVERIFIED = {
  'C07': ['asn_encode_to_buffer / asn_encode_to_new_buffer / uper_encode_to_buffer / uper_encode_to_new_buffer with a UPER type encoder: obligations exist (tier experimental) but do not discharge (symbolic-length memcpy of the 32-octet bit scratch space runs out of memory); asn_encode with UPER is covered',
          'every constructed / generated type encoder is assumed to follow the operation-slot convention enumerated by the stub encoder',
